@@ -539,6 +539,8 @@ class Interp:
         # stubs: {function-name suffix: python callable(interp, args) -> value}; every stub used is part of the claim
         self.stubs = stubs or {}
         self.stubs_used = set()
+        # predicate stubs: list of (pred(function, args) -> bool, handler(interp, args) -> value)
+        self.stub_preds = []
 
     # ---------------------------------------------------------------- exploration
     def explore(self, fn, make_args, max_paths=None):
@@ -590,6 +592,10 @@ class Interp:
 
     # ---------------------------------------------------------------- calls
     def call_function(self, f, args):
+        for pred, fn in self.stub_preds:
+            if pred(f, args):
+                self.stubs_used.add(getattr(pred, "__name__", "predicate-stub"))
+                return fn(self, args)
         for key, fn in self.stubs.items():
             if f.name == key or f.name.endswith("::" + key):
                 self.stubs_used.add(key)
